@@ -404,7 +404,15 @@ fn gen_ty(rng: &mut Rng, depth: usize) -> Value {
         5 | 6 => opt_(gen_ty(rng, depth - 1)),
         7 | 8 => vec_(gen_ty(rng, depth - 1)),
         9 => tup_((0..rng.usize(4)).map(|_| gen_ty(rng, depth - 1)).collect()),
-        10 => json!({"t": "map", "k": if rng.bool() { l_("string") } else { l_(*rng.pick(&LEAVES)) }, "v": gen_ty(rng, depth - 1)}),
+        10 => {
+            // keys: strings, any leaf, or any type at all (enums with data need several exploration passes of the KEY)
+            let key = match rng.below(3) {
+                0 => l_("string"),
+                1 => l_(*rng.pick(&LEAVES)),
+                _ => gen_ty(rng, depth - 1),
+            };
+            json!({"t": "map", "k": key, "v": gen_ty(rng, depth - 1)})
+        }
         11 | 12 => gen_struct(rng, depth - 1),
         13 => match rng.below(3) {
             0 => json!({"t": "tuple_struct", "n": "TS", "a": (0..rng.usize(4)).map(|_| gen_ty(rng, depth - 1)).collect::<Vec<_>>()}),
@@ -583,6 +591,25 @@ pub fn gen(ctx: &Ctx) -> Vec<Value> {
             }
         }
         push(&mut out, json!({"kind": "random", "ty": ty, "opts": o, "samples": samples, "overwrites": ows}), sub);
+    }
+    // (1b) maps whose KEY needs more exploration passes than anything else in the type (and the mirror image)
+    for mask in [0x100u64, 0x000, 0x1ff, 0x0a5] {
+        for nk in [2usize, 3, 5] {
+            for nv in [0usize, 1, 2] {
+                let key = en_("K", (0..nk).map(|i| var_(&format!("K{i}"), if i % 2 == 0 { "newtype" } else { "tuple" },
+                    if i % 2 == 0 { l_("i32") } else { Value::Array(vec![l_("string"), l_("bool")]) })).collect());
+                let val = if nv == 0 { l_("i64") } else { en_("V", (0..nv).map(|i| var_(&format!("V{i}"), "newtype", l_("u8"))).collect()) };
+                for wrap in 0..3 {
+                    let m = json!({"t": "map", "k": key.clone(), "v": val.clone()});
+                    let m = match wrap { 0 => m, 1 => vec_(opt_(m)), _ => opt_(m) };
+                    let ty = s_("S", vec![("m", m), ("x", l_("i32"))]);
+                    let w = width(&ty);
+                    let samples: Vec<Value> = (0..w).map(|k| sample_at(&ty, k)).collect();
+                    let sub = rng.fork().0;
+                    push(&mut out, json!({"kind": "mapkey", "ty": ty, "opts": opts_from_mask(mask), "samples": samples, "overwrites": []}), sub);
+                }
+            }
+        }
     }
     // (2) deep / recursive-like types: the depth limit and the budget
     for d in [5usize, 18, 19, 20, 21, 30] {
